@@ -495,6 +495,7 @@ pub enum Mode {
 }
 
 struct Sink<'a> {
+    quick: bool,
     mode: Mode,
     rep: &'a mut Report,
     states: u64,
@@ -535,8 +536,10 @@ impl<'a> Sink<'a> {
                     v
                 };
                 // the same question asked through the iterator interface (Ord for Hit), for a few prefixes
-                for &k in &[0usize, 1, nhits / 2] {
-                    if k > nhits {
+                let by_ref_ks: &[usize] = if self.quick { &[0] } else { &[0, 1, usize::MAX] };
+                for &k in by_ref_ks {
+                    let k = if k == usize::MAX { nhits / 2 } else { k };
+                    if k > nhits || (self.quick && nhits < 2) {
                         continue;
                     }
                     self.rep.eval_distinct(nontrivial);
@@ -599,7 +602,7 @@ impl<'a> Sink<'a> {
 
 fn sweep(mode: Mode, ctx: &mut Ctx, rep: &mut Report) {
     let mut base = 0u64;
-    let mut sink = Sink { mode, rep, states: 0, transitions: 0 };
+    let mut sink = Sink { quick: ctx.quick(), mode, rep, states: 0, transitions: 0 };
     let nrows = row_menu().len();
 
     // ---- (i) content-exhaustive: ALL DNA strings of length <= 5 --------------------------------
@@ -880,7 +883,7 @@ pub fn run_c02(ctx: &mut Ctx, rep: &mut Report) {
 
 pub fn run_c03(ctx: &mut Ctx, rep: &mut Report) {
     sweep(Mode::C03, ctx, rep);
-    rep.note("every history next^k . max for k = 0..=#hits+1 (all k when #hits <= 40, else {0,1,2,3,h/3,h/2,h-1,h,h+1}) is re-executed on a fresh scanner; for k in {0, 1, #hits/2} the best hit is also asked through the iterator interface (scanner.by_ref().max(), ranking by Ord for Hit); hits are decided on the row-order f32 sum exactly (every scoring path of the library returns it bit for bit, checked by C01/C02)");
+    rep.note("every history next^k . max for k = 0..=#hits+1 (all k when #hits <= 40, else {0,1,2,3,h/3,h/2,h-1,h,h+1}) is re-executed on a fresh scanner; for k = 0 (thorough: k in {0, 1, #hits/2}) the best hit is also asked through the iterator interface (scanner.by_ref().max(), ranking by Ord for Hit); hits are decided on the row-order f32 sum exactly (every scoring path of the library returns it bit for bit, checked by C01/C02)");
 }
 
 pub fn replay_c02(_ctx: &mut Ctx, rep: &mut Report, v: &Value) {
